@@ -1933,3 +1933,31 @@ def rule_line_model(ctx):
             else:
                 ctx.ok("SEC.LINE-MODEL", site, fi, fi.node, "lines come from the handle (readline / iteration) only")
     ctx.floor("SEC.LINE-MODEL", 1)
+
+
+def rule_whitespace_sets(ctx):
+    """LINE.WS-SET: surrounding white space of a line is removed with the argument-less `strip()` (after an optional
+    `strip("\\n")`).  A hand-written character set (`strip(" \\t\\n")`) is a different set: it leaves `\\r` (text given as a string
+    or StringIO is not newline-translated), form feeds, no-break spaces ... on the line, so the same text reads differently by
+    channel."""
+    p = ctx.p
+    n = 0
+    bad = []
+    for q, fi in sorted(p.functions.items()):
+        if isinstance(fi.node, ast.Lambda) or fi.module.name not in ("las", "reader"):
+            continue
+        for c in walk_shallow(fi.node):
+            if isinstance(c, ast.Call) and isinstance(c.func, ast.Attribute) and c.func.attr in ("strip", "rstrip", "lstrip") and len(c.args) == 1 \
+                    and isinstance(c.args[0], ast.Constant) and isinstance(c.args[0].value, str):
+                n += 1
+                chars = c.args[0].value
+                if (" " in chars or "\t" in chars) and "line" in ast.unparse(c.func.value).lower():
+                    bad.append((fi, c))
+    site = "lasio#hand-written-whitespace-sets"
+    if bad:
+        fi, c = bad[0]
+        ctx.bad("LINE.WS-SET", site, fi, c, "`%s` in %s strips a hand-written set of blanks: a trailing carriage return (CRLF text passed as a "
+                "string / StringIO / file opened with newline='') and other white space stay on the line" % (unparse(c), fi.qual))
+    else:
+        ctx.ok("LINE.WS-SET", site, None, 0, "no line is stripped with a hand-written white-space set (%d strip(<chars>) calls looked at)" % n,
+               nontrivial=False)
